@@ -442,6 +442,10 @@ def classTable : ClassTable where
       ("JointDistributionModel", { name := "JointDistributionModel", slots := [.each "distributions"] }),
       -- taxa and tree models (inline sub-objects: Taxa, Taxon, heights / branch-length parameters)
       ("Taxon", { name := "Taxon", slots := [] }),
+      -- full dotted names (what the json_factory helpers write) resolve to the same classes
+      ("torchtree.evolution.taxa.Taxon", { name := "Taxon", slots := [] }),
+      ("torchtree.evolution.taxa.Taxa", { name := "Taxa", slots := [.many "taxa"] }),
+      ("torchtree.Parameter", { name := "Parameter", slots := [.firstOf paramAlts] }),
       ("Taxa", { name := "Taxa", slots := [.many "taxa"] }),
       -- (`datatype: "nucleotide"` builds an anonymous data type unless an object is registered under that id)
       ("Alignment", { name := "Alignment", slots := [.one "taxa", .need "datatype"] }),
